@@ -49,6 +49,14 @@ def _call(direction, case, zone, east, north, h="case", vcv="case"):
         kw["ell_ht"] = S.as_kind(hh, nk)
     if vv is not None:
         kw["vcv"] = vv if isinstance(vv, np.ndarray) else np.array(vv, dtype=float)     # an ndarray is passed as it is
+    form = case.get("form", 0)
+    if form:
+        # the same request with the documented defaults written out (ell_ht=False, vcv=None) instead of left out, by keyword
+        # (form 1) or with everything by position (form 2)
+        kw.setdefault("ell_ht", False)
+        kw.setdefault("vcv", None)
+        if form == 2:
+            args += [kw.pop("ell_ht"), kw.pop("vcv")]
     r = f(*args, **kw)
     if not is_seq(r, 5):
         raise Fail("transform_mga* did not return (zone, east, north, height, vcv)", observed=repr(r))
@@ -205,7 +213,8 @@ def mga_cases(draw, with_vcv=False):
     n = round(n, 4)
     hsel = draw(st.integers(0, 3))
     h = None if hsel == 0 else (0.0 if hsel == 1 else draw(st.one_of(S.floats(-100.0, 3000.0), st.sampled_from([-100.0, 3000.0, 0.0977, -0.0977]))))
-    c = {"dir": draw(st.sampled_from(["94to2020", "2020to94"])), "zone": zone, "east": e, "north": n, "h": h, "num": draw(S.num_kind)}
+    c = {"dir": draw(st.sampled_from(["94to2020", "2020to94"])), "zone": zone, "east": e, "north": n, "h": h, "num": draw(S.num_kind),
+         "form": draw(st.sampled_from([0, 0, 1, 2]))}
     if c["num"] == "int":
         c["east"], c["north"] = float(round(e)), float(round(n))      # whole metres, as a user would type them
         if h is not None:
@@ -259,7 +268,7 @@ def _sweep_lines(rnd):
         h = rnd.choice([None, rnd.uniform(-100.0, 3000.0)])
         n0 = rnd.uniform(3.4e6, 9.4e6)
         e0 = rnd.uniform(200000.0, 800000.0)
-        base = {"dir": d, "zone": zone, "h": h, "num": "float"}
+        base = {"dir": d, "zone": zone, "h": h, "num": "float", "form": (zone + (0 if h is None else 1)) % 3}
         # (eastings stay where the latitude band of the statement maps to: at N = n0 every E in 100..900 km is fine)
         out.append((1.0, lambda f, b=base, n=n0: dict(b, east=round(100000.0 + 800000.0 * f, 4), north=round(n, 4))))
         out.append((1.0, lambda f, b=base, e=e0: dict(b, east=round(e, 4), north=round(3.4e6 + 6.0e6 * f, 4))))
